@@ -6,6 +6,8 @@ from xrl import F_ERR
 
 PID = "C05"
 RT = 1e-13
+AGGREGATES = {"CS_Total", "CS_Total_Kissel", "CSb_Total", "CSb_Photo", "CSb_Rayl", "CSb_Compt", "CSb_Total_Kissel", "CS_Photo_Total", "CSb_Photo_Total", "CS_Photo_Partial",
+              "DCS_Rayl", "DCS_Compt", "DCSb_Rayl", "DCSb_Compt", "DCSP_Rayl", "DCSP_Compt", "DCSPb_Rayl", "DCSPb_Compt"}
 
 
 def cls(E):
@@ -39,6 +41,14 @@ def run(ctx, B):
 
         def call(fn, *cols):
             r = X.call(fn, *cols); ctx.add(evaluations=len(r))
+            if fn in AGGREGATES:
+                # "passing no error slot changes nothing but the reporting": a part that fails must make the aggregate fail there too
+                r1 = X.call(fn, *cols, mode=xrl.M_NULL); ctx.add(evaluations=len(r1))
+                diff = np.nonzero(~((r1["v0"] == r["v0"]) | (np.isnan(r1["v0"]) & np.isnan(r["v0"]))))[0]
+                for j in diff[:50]:
+                    a = [float(c[j]) if np.asarray(c).dtype.kind == "f" else int(c[j]) for c in cols]
+                    ctx.violation("%s|%s|Z=%d|no-error-slot-differs" % (cfg, fn, a[0]), "%s%r [%s] returns %r without an error slot but %r (error=%s) with one" % (
+                        fn, tuple(a), cfg, float(r1["v0"][j]), float(r["v0"][j]), bool(r["flags"][j] & F_ERR)), dict(cfg=cfg, calls=[dict(fn=fn, args=a), dict(fn=fn, args=a, mode=xrl.M_NULL)]))
             return r["v0"], (r["flags"] & F_ERR) != 0
 
         def compare(name, got, goterr, exp, experr, Zs, Es, extra=None, rt=RT):
